@@ -129,20 +129,39 @@ def predicate_text(fn, ctx):
 
 
 # --------------------------------------------------------------------- XOR guard
+class _Obj(object):
+    """a predicate result that is not a bool: only its truth value is known (a match object, a length, None, '')"""
+    def __init__(self, truth):
+        self.truth = truth
+
+    def __bool__(self):
+        return self.truth
+
+
+# the outcomes a user predicate can have: the two bools and an arbitrary truthy / falsy object
+PRED_OUTCOMES = (('False', False), ('a falsy non-bool', _Obj(False)), ('True', True), ('a truthy non-bool', _Obj(True)))
+
+
 def _bool_eval(e, P, C, pred_names, defs=None):
-    """Evaluate a guard over the predicate outcome P and the complement flag C."""
+    """Evaluate a guard over the predicate outcome P (a bool or an _Obj) and the complement flag C.  Truth contexts
+    (if, not, and/or, bool()) coerce; == / != / is compare the objects, so a non-bool outcome equals neither flag."""
     if isinstance(e, ast.BoolOp):
-        vals = [_bool_eval(v, P, C, pred_names, defs) for v in e.values]
+        vals = [bool(_bool_eval(v, P, C, pred_names, defs)) for v in e.values]
         return all(vals) if isinstance(e.op, ast.And) else any(vals)
     if isinstance(e, ast.UnaryOp) and isinstance(e.op, ast.Not):
-        return not _bool_eval(e.operand, P, C, pred_names, defs)
+        return not bool(_bool_eval(e.operand, P, C, pred_names, defs))
     if isinstance(e, ast.Compare) and len(e.ops) == 1 and isinstance(e.ops[0], (ast.Eq, ast.NotEq, ast.Is, ast.IsNot)):
         a = _bool_eval(e.left, P, C, pred_names, defs)
         b = _bool_eval(e.comparators[0], P, C, pred_names, defs)
         eq = isinstance(e.ops[0], (ast.Eq, ast.Is))
-        return (a == b) if eq else (a != b)
+        same = (a is b) if (isinstance(a, _Obj) or isinstance(b, _Obj)) else (a == b)
+        return same if eq else (not same)
     if isinstance(e, ast.Call) and isinstance(e.func, ast.Name) and e.func.id == 'bool' and len(e.args) == 1:
-        return _bool_eval(e.args[0], P, C, pred_names, defs)
+        return bool(_bool_eval(e.args[0], P, C, pred_names, defs))
+    if isinstance(e, ast.Call) and norm(e.func) in ('operator.truth',) and len(e.args) == 1:
+        return bool(_bool_eval(e.args[0], P, C, pred_names, defs))
+    if isinstance(e, ast.Call) and norm(e.func) in ('operator.not_',) and len(e.args) == 1:
+        return not bool(_bool_eval(e.args[0], P, C, pred_names, defs))
     if isinstance(e, ast.Call) and isinstance(e.func, ast.Name) and e.func.id in pred_names:
         return P
     if isinstance(e, ast.Name) and e.id == 'complement':
@@ -152,7 +171,7 @@ def _bool_eval(e, P, C, pred_names, defs=None):
     if isinstance(e, ast.Constant) and isinstance(e.value, bool):
         return e.value
     if isinstance(e, ast.IfExp):
-        return _bool_eval(e.body, P, C, pred_names, defs) if _bool_eval(e.test, P, C, pred_names, defs) \
+        return _bool_eval(e.body, P, C, pred_names, defs) if bool(_bool_eval(e.test, P, C, pred_names, defs)) \
             else _bool_eval(e.orelse, P, C, pred_names, defs)
     if isinstance(e, ast.Name) and defs and e.id in defs:
         return _bool_eval(defs[e.id], P, C, pred_names, {k: v for k, v in defs.items() if k != e.id})
@@ -229,21 +248,21 @@ def check_xor(ctx, rep, fn, pred_names):
             counts.setdefault(n.targets[0].id, []).append(n.value)
     defs = {k: v[0] for k, v in counts.items() if len(v) == 1 and k not in pred_names and k != 'complement'}
     try:
-        for P in (False, True):
+        for pname, P in PRED_OUTCOMES:
             for C in (False, True):
                 n_yield = 0
                 for y, conds in ys:
-                    if all(_bool_eval(t, P, C, pred_names, defs) == pol for t, pol in conds):
+                    if all(bool(_bool_eval(t, P, C, pred_names, defs)) == pol for t, pol in conds):
                         n_yield += 1
-                want = 1 if (P != C) else 0
-                case = 'predicate=%s complement=%s' % (P, C)
+                want = 1 if (bool(P) != C) else 0
+                case = 'predicate=%s complement=%s' % (pname, C)
                 if n_yield == want:
                     rep.held('R13.1', fn, case, '%d row(s) yielded' % n_yield, fn.node)
                 else:
                     rep.violated('R13.1', fn, case,
                                  'the row is yielded %d time(s) when the predicate is %s and complement is %s; a selection '
                                  'and its complement must partition the input (yield iff predicate XOR complement)'
-                                 % (n_yield, P, C), ys[0][0] if ys else fn.node)
+                                 % (n_yield, pname, C), ys[0][0] if ys else fn.node)
     except _Undecided as e:
         rep.undecided('R13.1', fn, 'XOR guard', str(e), fn.node)
     # yielded value is the row itself (or a plain copy of it), whatever the locals are called
@@ -275,7 +294,11 @@ def run(ctx):
     rep.rule('R13.2', 'each selector applies its documented predicate and forwards complement/missing unchanged')
     rep.rule('R13.3', 'complement siblings: searchcomplement / biselect / facet')
     rep.rule('R13.7', 'search applies the pattern to the text of one cell at a time')
-    r137(ctx, rep)
+    ctx.attempt(r137, ctx, rep)
+    from .common import check_selector_truth as _seltruth
+    rep.rule('R13.9', 'a field selector (name or position; 0 and \'\' are valid) is never tested for truth')
+    ctx.floor('selector_functions', ctx.attempt(_seltruth, ctx, rep, 'R13.9', ctx.functions(
+        ['petl.transform.selects', 'petl.transform.regex'])) or 0, 3)
     # R13.8: the comparison selectors are exact complements of each other (selectlt / selectge, selectgt / selectle) only
     # if <=, >, >= are the stated functions of < and == on Comparable (C04 R4.2) -- the selectors reach them through the
     # reflected operators of the wrapped reference value
@@ -304,15 +327,15 @@ def run(ctx):
     if mod is None:
         raise AnalysisError('anchor vanished: petl.transform.selects')
     # R13.1
-    check_xor(ctx, rep, ctx.project.need_fn('petl.transform.selects:iterfieldselect'), {'where'})
-    check_xor(ctx, rep, ctx.project.need_fn('petl.transform.selects:iterrowselect'), {'where'})
-    check_xor(ctx, rep, ctx.project.need_fn('petl.transform.regex:itersearch'), {'test'})
+    ctx.attempt(check_xor, ctx, rep, ctx.project.need_fn('petl.transform.selects:iterfieldselect'), {'where'})
+    ctx.attempt(check_xor, ctx, rep, ctx.project.need_fn('petl.transform.selects:iterrowselect'), {'where'})
+    ctx.attempt(check_xor, ctx, rep, ctx.project.need_fn('petl.transform.regex:itersearch'), {'test'})
     cm = ctx.project.modules.get('petl._controls.' + CONTROL)
     if cm is not None:
         for q, fn in cm.functions.items():
             if q.startswith(('bad_xor', 'good_xor')):
                 check_xor(ctx, rep, fn, {'where'})
-    _missing_cell(ctx, rep, ctx.project.need_fn('petl.transform.selects:iterfieldselect'))
+    ctx.attempt(_missing_cell, ctx, rep, ctx.project.need_fn('petl.transform.selects:iterfieldselect'))
     # R13.2
     n = 0
     targets = []
@@ -356,8 +379,8 @@ def run(ctx):
     for node in own_nodes(sop.node):
         if isinstance(node, ast.Call) and norm(node.func) == 'select':
             _forwarding(rep, sop, node, ('complement',))
-    r133(ctx, rep)
-    r134(ctx, rep)
+    ctx.attempt(r133, ctx, rep)
+    ctx.attempt(r134, ctx, rep)
     from .plumbing import check_plumbing
     rep.rule('R13.5', 'view -> iterator plumbing of the selections: self.X reaches the parameter named X')
     ctx.floor('plumbing_sites', check_plumbing(ctx, rep, 'R13.5', ['petl.transform.selects']), 10)
